@@ -491,4 +491,13 @@ example : confidence ⟨false, false, false, 0, false⟩ = ⟨25, 100⟩ := by d
 example : (confidence ⟨true, true, true, 7, true⟩).num * 320000
     = 156850 * ((confidence ⟨true, true, true, 7, true⟩).den : Int) := by decide +kernel
 
+-- `BTreeSet<&str>` order of the instruction registers: byte-wise string order, duplicates once
+example : btreeSet ["rcx", "rbx", "r9", "r10", "rbx"] = ["r10", "r9", "rbx", "rcx"] := by
+  decide +kernel
+
+-- the Windows protection constants: NOACCESS, READWRITE, EXECUTE_READ, EXECUTE_WRITECOPY, EXECUTE
+example : protPerm 0x01 = ⟨false, false, false⟩ ∧ protPerm 0x04 = ⟨true, true, false⟩ ∧
+    protPerm 0x20 = ⟨true, false, true⟩ ∧ protPerm 0x80 = ⟨false, true, true⟩ ∧
+    protPerm 0x10 = ⟨false, false, true⟩ := by decide
+
 end MdModel.BitFlip
